@@ -487,6 +487,34 @@ def r8_cancel_and_listener(tree, rep):
                    "confirmed before connect() was called is not the result of connect()")
 
 
+def every_attempt_is_a_contender(tree, rep, rule="C07.R10"):
+    """every connection attempt Common._connect starts (directly or through deferLater) is entered into the race before the next attempt
+    is started or the loop moves on: an attempt that is dialled but not registered can complete its handshake, be told "go" by
+    connection_ready and carry on as the Sender's link although connect() never returns it - while a registered one gets "nevermind"."""
+    fn = tree.func(TR, "Common", "_connect")
+    g = build(fn)
+
+    def starts(s):
+        return isinstance(s, ast.Assign) and len(s.targets) == 1 and isinstance(s.targets[0], ast.Name) and any(
+            (isinstance(x, ast.Attribute) and x.attr == "_start_connector") for x in ast.walk(s.value))
+    created = g.nodes(starts)
+    ok = bool(created)
+    bad = None
+    for c in created:
+        v = g.stmt[c].targets[0].id
+        apps = g.call_nodes(lambda k, v=v: isinstance(k.func, ast.Attribute) and k.func.attr == "append" and len(k.args) == 1
+                            and isinstance(k.args[0], ast.Name) and k.args[0].id == v)
+        nxt = [y for (y, lab) in g.succ[c] if lab != 'exc']
+        r = g.reach(nxt, avoid_nodes=set(apps), explicit_only=True)
+        if g.exit in r or (set(created) & r):
+            ok = False
+            bad = bad or g.stmt[c]
+    rep.check(rule, "Common._connect: each of the %d places that start a connection attempt appends it to the contenders before another "
+              "attempt starts or the function returns" % len(created), ok, site(bad or fn, TR), key="%s:_connect:every-attempt-registered" % rule,
+              what="Common._connect starts a connection attempt that is not (always) entered into the race: with two relays of one priority tier "
+                   "only the last is a contender - the other can still win the Sender's 'go' and become a link connect() never returns")
+
+
 def contenders_stay_failed(tree, rep, rule="C07.R9"):
     """every Deferred that joins the race succeeds only with a negotiated connection: a connection attempt that FAILED (refused, DNS,
     bad handshake, cancelled) must stay failed.  there_can_be_only_one takes the first success as the winner and cancels everyone else,
@@ -527,6 +555,7 @@ def run(tree, rep, tier):
     race_discipline(tree, rep)
     r6(tree, rep)
     contenders_stay_failed(tree, rep)
+    every_attempt_is_a_contender(tree, rep)
 
 
 MUTANTS = [
